@@ -71,7 +71,7 @@ fn permutation(n: usize, mut k: usize) -> Vec<usize> {
 
 fn node_ip(i: usize, public: bool) -> [u8; 4] {
     if public {
-        [31 + i as u8, 40, 50, 60]
+        [31 + (i % 200) as u8, 40 + (i / 200) as u8, 50, 60]
     } else {
         [10, 0, (i / 200) as u8, (i % 200) as u8 + 1]
     }
@@ -89,6 +89,23 @@ struct Out {
 fn table_ids(w: &World, n: usize) -> BTreeSet<Id20> {
     let s = w.snapshot(n);
     s.core.routing_table.buckets.iter().flat_map(|(_, b)| b.iter().map(|n| *n.id.as_bytes())).collect()
+}
+
+/// Whether the bucket of `first`'s main table that `joiner` belongs to is full (20 entries): the
+/// first node cannot be expected to hold a joiner it has no room for ("capacity permitting").
+fn no_room_for(w: &World, first: usize, joiner: &Id20) -> bool {
+    let snap = w.snapshot(first);
+    let own = *snap.core.routing_table.id.as_bytes();
+    let x = crate::krpc::xor(&own, joiner);
+    let lz: u32 = x.iter().position(|b| *b != 0).map(|i| i as u32 * 8 + x[i].leading_zeros()).unwrap_or(160);
+    let d = (160 - lz) as u8;
+    snap.core.routing_table.buckets.iter().any(|(k, b)| *k == d && b.len() >= 20)
+}
+
+/// Addresses a node knows: the entries of both of its routing tables.
+fn known_addrs(w: &World, n: usize) -> BTreeSet<SocketAddrV4> {
+    let snap = w.snapshot(n);
+    snap.core.routing_table.buckets.iter().chain(snap.core.signed_peers_routing_table.buckets.iter()).flat_map(|(_, b)| b.iter().map(|n| n.address)).collect()
 }
 
 fn own_id(w: &World, n: usize) -> Id20 {
@@ -203,7 +220,7 @@ fn scenario(cfg: &Cfg, track: bool) -> Out {
         for j in 1..s {
             let idj = own_id(&w, nodes[j]);
             // a joiner that re-keyed after confirming its address is known under either id
-            if !t0.contains(&idj) && !t0.contains(&id_class(perm[j], 0x3E)) {
+            if !t0.contains(&idj) && !t0.contains(&id_class(perm[j], 0x3E)) && s <= 21 && !no_room_for(&w, nodes[0], &idj) {
                 problems.push((format!("first-node-does-not-know-joiner/{}", TIMINGS[cfg.timing]), format!("the first node's table lacks joiner #{j}")));
             }
         }
@@ -214,8 +231,9 @@ fn scenario(cfg: &Cfg, track: bool) -> Out {
         let adj: Vec<Vec<usize>> = nodes
             .iter()
             .map(|n| {
-                let snap = w.snapshot(*n);
-                let t: BTreeSet<SocketAddrV4> = snap.core.routing_table.buckets.iter().flat_map(|(_, b)| b.iter().map(|n| n.address)).collect();
+                // both routing tables count (a server with a bootstrap list records the nodes
+                // that bootstrap through it in its signed-peers table)
+                let t = known_addrs(&w, *n);
                 (0..s).filter(|k| t.contains(&addrs[*k])).collect()
             })
             .collect();
@@ -237,8 +255,9 @@ fn scenario(cfg: &Cfg, track: bool) -> Out {
         if reach(0, &adj) != s || reach(0, &radj) != s {
             problems.push((format!("knows-graph-not-strongly-connected/{}", TIMINGS[cfg.timing]), format!("adjacency {adj:?}")));
         }
-        // a lookup from every node asks every server
-        for (j, n) in nodes.iter().enumerate() {
+        // a lookup from every node asks every server (stated for up to 20 servers; above that only
+        // the connectivity verdict applies)
+        for (j, n) in nodes.iter().enumerate().filter(|_| s <= 20) {
             for kind in 0..2 {
                 let target: Id20 = [0x99 ^ (j as u8) ^ (kind as u8 * 0x40); 20];
                 let log_start = w.log.len();
@@ -267,7 +286,7 @@ fn scenario(cfg: &Cfg, track: bool) -> Out {
                     if std::env::var_os("VERIF_DEBUG").is_some() {
                         eprintln!("DEBUG first node after own lookups: firewalled={} public_address={:?} id={:?} table={:?}", snap.core.firewalled, snap.core.public_address, snap.core.routing_table.id, t);
                     }
-                    if let Some(missing) = (1..s).find(|k| !t.contains(&addrs[*k])) {
+                    if let Some(missing) = (1..s).filter(|_| s <= 21).find(|k| !t.contains(&addrs[*k]) && !no_room_for(&w, nodes[0], &own_id(&w, nodes[*k]))) {
                         problems.push((
                             format!("first-node-forgot-joiner/{}", TIMINGS[cfg.timing]),
                             format!("after its own lookups (address confirmed: firewalled={}) the first node's table no longer holds joiner #{missing} (table size {})", snap.core.firewalled, t.len()),
@@ -302,7 +321,9 @@ fn scenario(cfg: &Cfg, track: bool) -> Out {
         let snap = w.snapshot(nodes[0]);
         let t: BTreeSet<SocketAddrV4> = snap.core.routing_table.buckets.iter().flat_map(|(_, b)| b.iter().map(|n| n.address)).collect();
         for j in 1..s {
-            if !t.contains(&addrs[j]) {
+            // (with more than 20 joiners a bucket may have been full when a joiner arrived and be
+            // laid out differently now, after a re-key: only the connectivity verdict applies)
+            if s <= 21 && !t.contains(&addrs[j]) && !no_room_for(&w, nodes[0], &own_id(&w, nodes[j])) {
                 problems.push((format!("first-node-forgot-joiner/{}", TIMINGS[cfg.timing]), format!("after the lookups the first node's table no longer holds joiner #{j} (table size {})", t.len())));
                 break;
             }
@@ -531,7 +552,7 @@ fn run(tier: Tier, shard: usize, nshards: usize, _seed: u64) -> Partial {
             }
         }
     }
-    let bigs: &[usize] = &[8, 20];
+    let bigs: &[usize] = if tier.is_quick() { &[8, 20] } else { &[8, 20, 50, 100, 300] };
     for &s in bigs {
         for timing in [0, 1] {
             for public in [true, false] {
